@@ -21,6 +21,34 @@ var theEnum = EnumEnv{Name: "Color", Prefix: "COLOR_", Options: []string{"RED", 
 // the same enum with its zero option declared explicitly (rules can then name it)
 var theEnumZ = EnumEnv{Name: "Color", Prefix: "COLOR_", Unspecified: "UNSPECIFIED", Options: []string{"RED", "GREEN", "BLUE", "DARK_RED"}}
 
+// first options whose name ends in UNSPECIFIED without being the zero spelling (UNSPECIFIED or
+// <prefix>UNSPECIFIED): ordinary options, numbered 1, value 0 stays the implicit <prefix>UNSPECIFIED;
+// the enum's summary for references (enumTypeRef: names in rules.in / rules.notIn) and the compiled enum
+// (visitEnumNode) have to agree on that
+var oddFirst = []string{"OLD_UNSPECIFIED", "LEVEL_UNSPECIFIED", "X_UNSPECIFIED"}
+
+func oddEnum(first string, where int) EnumEnv {
+	e := theEnum
+	e.Options = append([]string{first}, theEnum.Options...)
+	e.Where = where
+	return e
+}
+
+// pinnedOddC12: enum fields restricting such an enum by names before and after the odd option
+func pinnedOddC12(env EnumEnv) []genDecl {
+	mk := func(name string, p Prop) genDecl { p.Name = name; return genDecl{P: p} }
+	u := func(v uint64) *uint64 { return &v }
+	first, last := env.Options[0], env.Options[len(env.Options)-1]
+	return []genDecl{
+		mk("pinOddIn", Prop{T: FTy{Kind: TEnum, Enum: &EnumRules{In: []string{last}}}}),
+		mk("pinOddNotIn", Prop{T: FTy{Kind: TEnum, Enum: &EnumRules{NotIn: []string{env.Options[1]}}}}),
+		mk("pinOddInFirst", Prop{T: FTy{Kind: TEnum, Enum: &EnumRules{In: []string{first, env.Prefix + env.Options[2]}}}}),
+		mk("pinOddNotInFirst", Prop{Req: true, T: FTy{Kind: TEnum, Enum: &EnumRules{NotIn: []string{env.Prefix + first}}}}),
+		mk("pinOddArr", Prop{PK: PArray, Arr: &ArrRules{Min: u(1)}, T: FTy{Kind: TEnum, Enum: &EnumRules{In: []string{env.Options[1], last}}}}),
+		mk("pinOddPlain", Prop{T: FTy{Kind: TEnum}}),
+	}
+}
+
 // genEnum: the enum of a compile unit: default or explicit prefix, options
 // written short or prefixed, an explicit UNSPECIFIED now and then, descriptions
 func genEnum(r *vh.Rand) EnumEnv {
@@ -51,10 +79,10 @@ func genEnum(r *vh.Rand) EnumEnv {
 		if r.Chance(30) {
 			e.UnspecDesc = "nothing"
 		}
-		if r.Chance(12) {
+		if r.Chance(30) {
 			// another first option ending in UNSPECIFIED: since /repo a65e1f2 an ordinary
 			// option (number 1), value 0 stays the implicit <prefix>UNSPECIFIED
-			e.Options = append([]string{"X_UNSPECIFIED"}, e.Options...)
+			e.Options = append([]string{vh.Pick(r, oddFirst)}, e.Options...)
 			e.OptDescs = append([]string{e.UnspecDesc}, e.OptDescs...)
 			e.Unspecified, e.UnspecDesc = "", ""
 		}
